@@ -468,8 +468,6 @@ func foldRules(c *Ctx) {
 	r, t := c.R, c.T
 	pp := t.SSA[pParser]
 	sub, _ := constInt(pp.Const("SUB").Value)
-	div, _ := constInt(pp.Const("DIV").Value)
-	modv, _ := constInt(pp.Const("MOD").Value)
 	nu := t.Method(pParser, "parser", "newUnaryExpr")
 	na := t.Method(pParser, "parser", "newArithmeticExpr")
 	if nu == nil || na == nil {
@@ -546,86 +544,7 @@ func foldRules(c *Ctx) {
 		})
 	}
 	r.FloorN("literal negations in newUnaryExpr", n, 2)
-	// zero-divisor rejection only under DIV/MOD
-	zeroTest := func(ec edgeCond) bool {
-		if !ec.Pol {
-			return false
-		}
-		s := ec.String()
-		if strings.HasSuffix(s, "== 0") && strings.Contains(s, ".Val") {
-			return true
-		}
-		// a predicate helper: every comparison it makes is `<literal>.Val == 0`
-		if call, ok := ec.Cond.(*ssa.Call); ok {
-			g := call.Call.StaticCallee()
-			if g == nil || g.Pkg != na.Pkg || len(g.Blocks) == 0 {
-				return false
-			}
-			nz, other := 0, 0
-			allInstrs(g, func(in ssa.Instruction) {
-				bo, ok := in.(*ssa.BinOp)
-				if !ok || !strings.Contains(path(bo.X), ".Val") {
-					return
-				}
-				if bo.Op == token.EQL && isZeroConst(bo.Y) {
-					nz++
-				} else {
-					other++
-				}
-			})
-			return nz > 0 && other == 0
-		}
-		return false
-	}
-	m := 0
-	allInstrs(na, func(in ssa.Instruction) {
-		ret, ok := in.(*ssa.Return)
-		if !ok || !isNilConst(ret.Results[0]) {
-			return
-		}
-		// a nil operand (left by an earlier, already recorded error) is not a folding decision
-		nilOperand := false
-		for _, ec := range controlling(ret.Block()) {
-			if bo, ok := ec.Cond.(*ssa.BinOp); ok && isNilConst(bo.Y) && bo.Op == token.EQL && ec.Pol {
-				if _, isP := bo.X.(*ssa.Parameter); isP {
-					nilOperand = true
-				}
-			}
-		}
-		if nilOperand {
-			return
-		}
-		m++
-		okOp, okZero := false, false
-		for _, ec := range controlling(ret.Block()) {
-			if isTypEq(ec, div, modv) {
-				okOp = true
-			}
-			if zeroTest(ec) {
-				okZero = true
-			}
-		}
-		// the op test is a switch with two cases (or `a || b`): the return may be controlled by either case edge or
-		// the merged block — then a block testing op.Typ against DIV or MOD dominates it and nothing else leads there
-		if !okOp {
-			// walk up to the join block; each of its incoming edges must be the true edge of `op.Typ == DIV|MOD`
-			x := ret.Block()
-			for len(x.Preds) == 1 {
-				x = x.Preds[0]
-			}
-			if len(x.Preds) >= 2 {
-				all := true
-				for _, pb := range x.Preds {
-					iff, isIf := pb.Instrs[len(pb.Instrs)-1].(*ssa.If)
-					if !isIf || pb.Succs[0] != x || !isTypEq(edgeCond{If: pb, Cond: iff.Cond, Pol: true}, div, modv) {
-						all = false
-					}
-				}
-				okOp = all
-			}
-		}
-		r.Ob("FOLD", fmt.Sprintf("newArithmeticExpr rejection #%d is for a literal zero divisor of / or %%", m), t.Pos(ret.Pos()), okOp && okZero, "only `x / 0`, `x % 0` with a literal zero may be rejected at parse time")
-	})
+	m := arithRejectRule(c, "FOLD")
 	r.FloorN("parse-time rejections in newArithmeticExpr", m, 1)
 }
 
@@ -702,4 +621,111 @@ func isPureBlock(b *ssa.BasicBlock) bool {
 		}
 	}
 	return true
+}
+
+func condsOnly(conds []string) []string {
+	var out []string
+	for _, c := range conds {
+		if !strings.HasPrefix(c, "effect:") {
+			out = append(out, c)
+		}
+	}
+	return out
+}
+
+// arithRejectRule: see the comment inside; shared by C02 (FOLD) and C06 (CTOR-TOTAL: a constructor that refuses a
+// well-formed operand pair makes valid source text fail to parse).
+func arithRejectRule(c *Ctx, rule string) int {
+	r, t := c.R, c.T
+	pp := t.SSA[pParser]
+	div, _ := constInt(pp.Const("DIV").Value)
+	modv, _ := constInt(pp.Const("MOD").Value)
+	na := t.Method(pParser, "parser", "newArithmeticExpr")
+	if na == nil {
+		r.Undecided(rule, "parser.newArithmeticExpr", "", "unresolved anchor")
+		return 0
+	}
+	r.Fn(relName(na))
+	// Rejections: newArithmeticExpr specialised with symbolic operands (helpers inlined, position lookups opaque). Every
+	// outcome that builds no node is either for an operand that is already nil (an earlier, recorded error) or is
+	// conditioned on the operator being / or % AND on the literal value of the divisor — the right operand — being zero.
+	m := 0
+	{
+		cfg := &specCfg{MaxLoop: 2, MaxDepth: 3, MaxVisits: 200000}
+		cfg.Call = func(fn *ssa.Function, call *ssa.Call, nth int, args []sval) (sval, bool) {
+			if cal := call.Call.StaticCallee(); cal != nil {
+				switch cal.Name() {
+				case "LnCol", "PositionRange":
+					return symv(cal.Name()), true
+				case "addParseErrf", "addParseErr":
+					return symv("effect:parse-error"), true
+				}
+			}
+			return sval{}, false
+		}
+		var args []sval
+		for _, p := range na.Params {
+			args = append(args, symv(p.Name()))
+		}
+		outs, ab := cfg.run(na, args)
+		if ab != "" || len(outs) == 0 || len(na.Params) != 4 {
+			r.Undecided(rule, "newArithmeticExpr rejections", t.Pos(na.Pos()), "the constructor could not be specialised: "+ab)
+		} else {
+			divisor, dividend := na.Params[2].Name(), na.Params[1].Name()
+			seen := map[string]bool{}
+			for _, o := range outs {
+				if len(o.Vals) != 1 || !o.Vals[0].nil {
+					continue
+				}
+				nilOperand, okOp, okZero, other := false, false, false, ""
+				for _, cd := range o.Cond {
+					if strings.HasPrefix(cd, "effect:") {
+						continue
+					}
+					lit := canonLit(cd)
+					i := strings.Index(lit, " == ")
+					if lit[0] != '+' || i < 0 {
+						continue
+					}
+					x, y := lit[1:i], lit[i+4:]
+					for _, xy := range [][2]string{{x, y}, {y, x}} {
+						a, b := xy[0], xy[1]
+						switch {
+						case b == "nil" && (a == divisor || a == dividend):
+							nilOperand = true
+						case strings.Contains(a, ".Typ") && (b == fmt.Sprint(div) || b == fmt.Sprint(modv) || b == `"/"` || b == `"%"`):
+							okOp = true
+						case b == "0" && strings.HasSuffix(a, ".Val"):
+							if strings.HasPrefix(a, divisor+".") {
+								okZero = true
+							} else {
+								other = a
+							}
+						}
+					}
+				}
+				if nilOperand {
+					continue
+				}
+				key := "zero divisor"
+				if !okOp || !okZero {
+					key = "conditions: " + strings.Join(condsOnly(o.Cond), " && ")
+					if len(key) > 160 {
+						key = key[:160] + "…"
+					}
+				}
+				if seen[key] {
+					continue
+				}
+				seen[key] = true
+				m++
+				detail := "only `x / 0`, `x % 0` with a literal zero divisor may be rejected at parse time"
+				if other != "" {
+					detail += "; the zero test reads " + other + ", which is not the divisor " + divisor
+				}
+				r.Ob(rule, "newArithmeticExpr rejects only a literal zero divisor of / or %: "+key, t.Pos(na.Pos()), okOp && okZero, detail)
+			}
+		}
+	}
+	return m
 }
